@@ -1,14 +1,18 @@
 package main
 
 import (
-	"strings"
 	"bytes"
-	"regexp"
-	"strconv"
+	"context"
 	stdjson "encoding/json"
 	"fmt"
 	"io"
+	"os"
+	"reflect"
+	"regexp"
+	"strconv"
+	"strings"
 	"testing/iotest"
+	"time"
 
 	gojson "github.com/goccy/go-json"
 )
@@ -19,7 +23,7 @@ type c05Skip struct {
 	A int `json:"A"`
 }
 type c05Raw struct {
-	A int              `json:"A"`
+	A int                `json:"A"`
 	R stdjson.RawMessage `json:"x"`
 }
 type c05U struct{ n int }
@@ -27,8 +31,8 @@ type c05U struct{ n int }
 func (u *c05U) UnmarshalJSON(b []byte) error { u.n++; return nil }
 
 type c05WithU struct {
-	A int   `json:"A"`
-	U c05U  `json:"x"`
+	A int  `json:"A"`
+	U c05U `json:"x"`
 }
 
 type c05TextU struct{ s string }
@@ -73,11 +77,13 @@ func streamDecode(b []byte, v interface{}, one bool) error {
 // Valid, Unmarshal(iface), Decode(iface) whole / 1-byte
 func c05Obs(b []byte) []byte {
 	out := make([]byte, 0, 4)
-	if gojson.Valid(b) {
-		out = append(out, 'A')
-	} else {
-		out = append(out, 'R')
-	}
+	// (audit A1) Valid runs the stream decoder: a panic in it is a verdict ('P'), not the end of the run
+	out = append(out, verdict(func() error {
+		if !gojson.Valid(b) {
+			return fmt.Errorf("not valid")
+		}
+		return nil
+	}))
 	out = append(out, verdict(func() error { var v interface{}; return gojson.Unmarshal(b, &v) }))
 	out = append(out, verdict(func() error { var v interface{}; return streamDecode(b, &v, false) }))
 	out = append(out, verdict(func() error { var v interface{}; return streamDecode(b, &v, true) }))
@@ -99,23 +105,73 @@ func c05Oracle(b []byte) []byte {
 	return []byte{v, u, u, u}
 }
 
+// (audit A1) the struct key matcher has three forms, chosen by the number of fields and the
+// length of the longest key (internal/decoder/struct.go tryOptimize): a bitmap of 8 bits
+// (up to 8 fields: every struct above), a bitmap of 16 bits (9..16 fields) and a map lookup
+// behind the string decoder (more than 16 fields, or a key longer than 64 bytes).  The field
+// names are keys the generators write ("A", "a", "abc", "k", "0", "key with space" ...), so
+// that the matchers are entered, left early and left late.
+type c05Skip16 struct {
+	A   int `json:"A"`
+	Abc int `json:"abc"`
+	K   int `json:"k"`
+	Z   int `json:"0"`
+	Kws int `json:"key with space"`
+	Ab  int `json:"ab"`
+	E   int `json:"é"`
+	Lt  int `json:"<>&"`
+	Sp  int `json:" "`
+	Key int `json:"key"`
+}
+
+type c05SkipMap struct {
+	A, B, C, D, E, F, G, H, I, J, L, M, N, O, P int
+	Abc                                         int `json:"abc"`
+	K                                           int `json:"k"`
+	Z                                           int `json:"0"`
+}
+
+type c05SkipLongKey struct {
+	A    int `json:"A"`
+	Long int `json:"kkkkkkkkkkkkkkkkkkkkkkkkkkkkkkkkkkkkkkkkkkkkkkkkkkkkkkkkkkkkkkkkkkkkkkkkkkkkkkkk"`
+}
+
+type c05Dest struct {
+	name string
+	mk   func() interface{}
+}
+
+var c05Dests = []c05Dest{
+	{"skip", func() interface{} { return &c05Skip{} }},
+	{"raw", func() interface{} { return &c05Raw{} }},
+	{"unmarshaler", func() interface{} { return &c05WithU{} }},
+	{"array1", func() interface{} { return &[1]int{} }},
+	{"slice-of-skip", func() interface{} { return &[]c05Skip{} }},
+	{"map-of-skip", func() interface{} { return &map[string]c05Skip{} }},
+	{"text", func() interface{} { return &c05WithText{} }},
+	{"text-in-iface", func() interface{} { var i interface{} = &c05TextU{}; return &i }},
+	// (audit A1) the other two key matchers
+	{"skip16", func() interface{} { return &c05Skip16{} }},
+	{"skipmap", func() interface{} { return &c05SkipMap{} }},
+	{"skiplongkey", func() interface{} { return &c05SkipLongKey{} }},
+}
+
+func c05DestByName(name string) func() interface{} {
+	for _, d := range c05Dests {
+		if d.name == name {
+			return d.mk
+		}
+	}
+	return nil
+}
+
 // typed destinations that skip, ignore or delegate parts of the document
 func c05Typed(o *Out, b []byte) {
 	valid := stdjson.Valid(b)
-	dests := []struct {
-		name string
-		mk   func() interface{}
-	}{
-		{"skip", func() interface{} { return &c05Skip{} }},
-		{"raw", func() interface{} { return &c05Raw{} }},
-		{"unmarshaler", func() interface{} { return &c05WithU{} }},
-		{"array1", func() interface{} { return &[1]int{} }},
-		{"slice-of-skip", func() interface{} { return &[]c05Skip{} }},
-		{"map-of-skip", func() interface{} { return &map[string]c05Skip{} }},
-		{"text", func() interface{} { return &c05WithText{} }},
-		{"text-in-iface", func() interface{} { var i interface{} = &c05TextU{}; return &i }},
-	}
-	for _, d := range dests {
+	for _, d := range c05Dests {
+		if d.name == "skiplongkey" && o.tier != "thorough" {
+			continue // the same matcher as skipmap
+		}
 		for mode := 0; mode < 3; mode++ {
 			var v byte
 			switch mode {
@@ -196,19 +252,8 @@ func classifyC05(b []byte, dest string, mode int) string {
 		// stream-mode struct key scanners around an escaped quote: the stream
 		// decoder accepts what the buffer decoder of the same destination rejects
 		var mk func() interface{}
-		switch dest {
-		case "skip":
-			mk = func() interface{} { return &c05Skip{} }
-		case "raw":
-			mk = func() interface{} { return &c05Raw{} }
-		case "unmarshaler":
-			mk = func() interface{} { return &c05WithU{} }
-		case "slice-of-skip":
-			mk = func() interface{} { return &[]c05Skip{} }
-		case "map-of-skip":
-			mk = func() interface{} { return &map[string]c05Skip{} }
-		case "text":
-			mk = func() interface{} { return &c05WithText{} }
+		if dest != "text-in-iface" { // a destination with a struct in it
+			mk = c05DestByName(dest)
 		}
 		if mk != nil && verdict(func() error { return gojson.Unmarshal(b, mk()) }) == 'R' {
 			return "StreamStructKeyLenient"
@@ -260,6 +305,24 @@ func c05Text(o *Out, b []byte, typed bool) {
 		}
 		o.emit("A", "c05.iface", [][]byte{flag, b}, got[1:2], want[1:2], true)
 	}
+	c05Judge(o, b, got, want)
+	if typed {
+		c05Typed(o, b)
+		// (audit A1) more destinations and entry points: on every short text, on a sample of the others
+		n := o.Stats["x_typed_inputs"]
+		o.count("x_typed_inputs", 1)
+		if len(b) <= 3 || n%6 == 0 {
+			c05Plain(o, b, len(b) <= 2 || n%24 == 0 || o.tier == "thorough")
+		}
+		if len(b) <= 3 || n%3 == 0 {
+			c05Variants(o, b)
+		}
+	}
+}
+
+// c05Judge compares the four verdicts with the oracle's; a difference is the recorded
+// finding StreamLeadingSeparator or goes to bin/check as a disagreement
+func c05Judge(o *Out, b []byte, got, want []byte) {
 	if !bytes.Equal(got, want) {
 		// frozen class of a recorded finding: the stream decoder (Decoder.Decode,
 		// and Valid which is built on it) skips ONE leading ',' or ':' before a value
@@ -271,20 +334,20 @@ func c05Text(o *Out, b []byte, typed bool) {
 			if bytes.Equal(g2, w2) && got[0] == g2[0] && got[2] == g2[2] && got[3] == g2[3] {
 				o.known("StreamLeadingSeparator", fmt.Sprintf("%q", b))
 				o.hist("verdict_known", string(got)+" vs "+string(want))
-				goto TYPED
+				return
 			}
 		}
 		o.emit("C", "c05.verdicts", [][]byte{b}, got, want, true)
 		o.hist("verdict_mismatch", string(got)+" vs "+string(want))
 	}
-TYPED:
-	if typed {
-		c05Typed(o, b)
-	}
 }
 
 func runC05(o *Out) {
 	thorough := o.tier == "thorough"
+	if os.Getenv("AUDIT_ONLY") == "extra" { // for working on the added strata alone
+		c05Extra(o)
+		return
+	}
 	for _, d := range corpusDocs {
 		c05Text(o, []byte(d), true)
 	}
@@ -319,5 +382,565 @@ func runC05(o *Out) {
 				}
 			})
 		}
+	}
+	// the strata of audit A1 (last, so that the texts drawn above are the ones drawn before the audit)
+	c05Extra(o)
+}
+
+// ===========================================================================
+// Audit A1: destinations, entry points and input lengths that the generators
+// above do not reach.  Counters and histograms start with x_.
+// ===========================================================================
+
+// --- destinations without a struct and without anything to skip: "no destination type
+// makes decoding succeed on a byte string outside the language" also for the scalar
+// decoders (each has its own scanner for numbers, literals and strings, in two copies:
+// buffer and stream), pointers, slices, maps (string, integer and TextUnmarshaler keys)
+// and interface{} behind them.  None of the recorded findings but the stream decoder's
+// leading separator can explain an acceptance here.
+
+type c05KeyText string
+
+func (k *c05KeyText) UnmarshalText(b []byte) error { *k = c05KeyText(b); return nil }
+
+type c05Str struct {
+	I int     `json:"A,string"`
+	F float64 `json:"x,string"`
+	B bool    `json:"k,string"`
+	S string  `json:"abc,string"`
+}
+
+var c05PlainDests = []c05Dest{
+	{"float64", func() interface{} { var v float64; return &v }},
+	{"float32", func() interface{} { var v float32; return &v }},
+	{"int", func() interface{} { var v int; return &v }},
+	{"int8", func() interface{} { var v int8; return &v }},
+	{"uint", func() interface{} { var v uint; return &v }},
+	{"uint64", func() interface{} { var v uint64; return &v }},
+	{"string", func() interface{} { var v string; return &v }},
+	{"named-string", func() interface{} { var v TgNamedStr; return &v }},
+	{"bool", func() interface{} { var v bool; return &v }},
+	{"Number", func() interface{} { var v stdjson.Number; return &v }},
+	{"bytes", func() interface{} { var v []byte; return &v }},
+	{"*int", func() interface{} { var v *int; return &v }},
+	{"**string", func() interface{} { var v **string; return &v }},
+	{"*bool", func() interface{} { var v *bool; return &v }},
+	{"[]interface{}", func() interface{} { var v []interface{}; return &v }},
+	{"[]int", func() interface{} { var v []int; return &v }},
+	{"[]string", func() interface{} { var v []string; return &v }},
+	{"[]*float64", func() interface{} { var v []*float64; return &v }},
+	{"[]Number", func() interface{} { var v []stdjson.Number; return &v }},
+	{"[][]bool", func() interface{} { var v [][]bool; return &v }},
+	{"map[string]interface{}", func() interface{} { var v map[string]interface{}; return &v }},
+	{"map[string]int", func() interface{} { var v map[string]int; return &v }},
+	{"map[int]string", func() interface{} { var v map[int]string; return &v }},
+	{"map[uint8]*int", func() interface{} { var v map[uint8]*int; return &v }},
+	{"map[TextUnmarshaler]float64", func() interface{} { var v map[c05KeyText]float64; return &v }},
+	{"map[string]map[string][]bool", func() interface{} { var v map[string]map[string][]bool; return &v }},
+	{"populated interface{}(*[]int)", func() interface{} { var i interface{} = &[]int{1}; return &i }},
+	{"populated interface{}(*map[string]string)", func() interface{} { var i interface{} = &map[string]string{"a": "b"}; return &i }},
+}
+
+// fields with the ,string option: a second grammar inside a string literal.  A struct,
+// hence checked in buffer mode with the struct destinations' classifier (shape below).
+var c05StringTagDest = c05Dest{"string-tag", func() interface{} { return &c05Str{} }}
+
+func c05ModeVerdict(b []byte, mk func() interface{}, mode int) byte {
+	switch mode {
+	case 0:
+		return verdict(func() error { return gojson.Unmarshal(b, mk()) })
+	case 1:
+		return verdict(func() error { return streamDecode(b, mk(), false) })
+	case 2:
+		return verdict(func() error { return streamDecode(b, mk(), true) })
+	}
+	return verdict(func() error { return c05StreamPieces(b, mk(), mode, false) })
+}
+
+// Decoder.Decode from a reader that delivers pieces of the given size; the whole input must be one text
+func c05StreamPieces(b []byte, v interface{}, size int, useNumber bool) error {
+	d := gojson.NewDecoder(&pieceReader{b: b, size: size, failAt: -1})
+	if useNumber {
+		d.UseNumber()
+	}
+	if err := d.Decode(v); err != nil {
+		return err
+	}
+	var rest interface{}
+	if err := d.Decode(&rest); err != io.EOF {
+		return fmt.Errorf("trailing data")
+	}
+	return nil
+}
+
+// the one recorded finding that does not depend on the destination: in stream mode one
+// leading ',' or ':' is skipped (the predicate of classifyC05's first clause)
+func c05LeadingSeparator(b []byte, mode int) bool {
+	if mode == 0 {
+		return false
+	}
+	t := bytes.TrimLeft(b, " \t\r\n")
+	return len(t) > 0 && (t[0] == ',' || t[0] == ':') && stdjson.Valid(t[1:])
+}
+
+// the destinations every sampled text meets; the others meet the shortest texts and a sample (all of them in thorough)
+var c05PlainCore = map[string]bool{"float64": true, "int": true, "uint64": true, "string": true, "bool": true, "Number": true, "bytes": true, "*int": true,
+	"[]interface{}": true, "map[string]interface{}": true, "map[int]string": true, "[]string": true}
+
+func c05Plain(o *Out, b []byte, full bool) {
+	valid := stdjson.Valid(b)
+	if valid {
+		// a valid text tells nothing here: whether a destination takes it is C02's question
+		o.count("x_plain_inputs_valid_not_run", 1)
+		return
+	}
+	o.count("x_plain_inputs", 1)
+	for _, d := range c05PlainDests {
+		if !full && !c05PlainCore[d.name] {
+			continue
+		}
+		for mode := 0; mode < 3; mode++ {
+			v := c05ModeVerdict(b, d.mk, mode)
+			o.count("x_plain_cases", 1)
+			if v == 'P' {
+				o.violation("C05", "panic while decoding", map[string]string{"dest": d.name, "mode": fmt.Sprint(mode), "input": fmt.Sprintf("%q", b)})
+			}
+			if v == 'A' {
+				if c05LeadingSeparator(b, mode) {
+					o.known("StreamLeadingSeparator", fmt.Sprintf("%s mode=%d %q", d.name, mode, b))
+					continue
+				}
+				o.hist("x_plain_accepts_invalid", d.name)
+				o.violation("C05", "typed destination accepted a text outside the RFC 8259 language",
+					map[string]string{"dest": d.name, "mode": fmt.Sprint(mode), "input": fmt.Sprintf("%q", b)})
+			}
+		}
+	}
+	// ,string fields: buffer mode, no backslash and no control byte in the text (so
+	// that the recorded leniency of the struct key scanners, StructKeyUnvalidated, is out of
+	// the picture: the keys are then scanned to the next quote by every scanner)
+	if bytes.IndexByte(b, '\\') < 0 && !c05HasControl(b) {
+		d := c05StringTagDest
+		o.count("x_plain_cases", 1)
+		switch c05ModeVerdict(b, d.mk, 0) {
+		case 'P':
+			o.violation("C05", "panic while decoding", map[string]string{"dest": d.name, "mode": "0", "input": fmt.Sprintf("%q", b)})
+		case 'A':
+			o.violation("C05", "typed destination accepted a text outside the RFC 8259 language",
+				map[string]string{"dest": d.name, "mode": "0", "input": fmt.Sprintf("%q", b)})
+		}
+	}
+}
+
+// any byte below 0x20: after a damaged quote the white space between tokens can lie inside a key
+func c05HasControl(b []byte) bool {
+	for _, c := range b {
+		if c < 0x20 {
+			return true
+		}
+	}
+	return false
+}
+
+// --- the other entry points that decode into interface{}: the same language.  With
+// UseNumber the range of float64 plays no part (as for Valid).
+func c05Variants(o *Out, b []byte) {
+	var x interface{}
+	want := byte('R')
+	if stdjson.Unmarshal(b, &x) == nil {
+		want = 'A'
+	}
+	wantNum := byte('R')
+	if stdjson.Valid(b) {
+		wantNum = 'A'
+	}
+	type variant struct {
+		name   string
+		stream bool
+		want   byte
+		run    func() error
+	}
+	vs := []variant{
+		{"UnmarshalNoEscape", false, want, func() error { var v interface{}; return gojson.UnmarshalNoEscape(b, &v) }},
+		{"UnmarshalContext", false, want, func() error { var v interface{}; return gojson.UnmarshalContext(context.Background(), b, &v) }},
+		{"UnmarshalWithOption(FirstWin)", false, want, func() error {
+			var v interface{}
+			return gojson.UnmarshalWithOption(b, &v, gojson.DecodeFieldPriorityFirstWin())
+		}},
+		{"Decoder.UseNumber", true, wantNum, func() error { var v interface{}; return c05StreamPieces(b, &v, 4096, true) }},
+		{"Decoder.UseNumber(3 bytes)", true, wantNum, func() error { var v interface{}; return c05StreamPieces(b, &v, 3, true) }},
+		{"Decoder(2 bytes)", true, want, func() error { var v interface{}; return c05StreamPieces(b, &v, 2, false) }},
+		{"DecodeContext", true, want, func() error {
+			d := gojson.NewDecoder(bytes.NewReader(b))
+			var v, rest interface{}
+			if err := d.DecodeContext(context.Background(), &v); err != nil {
+				return err
+			}
+			if err := d.DecodeContext(context.Background(), &rest); err != io.EOF {
+				return fmt.Errorf("trailing data")
+			}
+			return nil
+		}},
+	}
+	for _, v := range vs {
+		got := verdict(v.run)
+		o.count("x_variant_cases", 1)
+		if got == v.want {
+			continue
+		}
+		if got == 'A' && v.stream && c05LeadingSeparator(b, 1) {
+			o.known("StreamLeadingSeparator", fmt.Sprintf("%s %q", v.name, b))
+			continue
+		}
+		o.hist("x_variant_mismatch", v.name+" "+string(got)+" vs "+string(v.want))
+		o.violation("C05", "an entry point decoding into interface{} disagrees with the RFC 8259 language",
+			map[string]string{"entry": v.name, "got": string(got), "want": string(v.want), "input": fmt.Sprintf("%q", b)})
+	}
+}
+
+// --- inputs longer than the stream decoder's window.  Decoder.Decode, and Valid which is
+// built on it, read through a window of 512 bytes that is doubled when a token does not
+// fit; every text above is shorter than that, so no refill ever happens in the middle of
+// a text when the reader delivers what is asked for, and the window never grows.  Here every
+// byte of a short text (valid or not) is laid on the last and the first position of the
+// first and the second window, behind white space, inside an array, inside a string
+// member, and inside a member that typed destinations skip.
+
+var c05Edges = []int{511, 1023}
+
+type c05Pad struct {
+	name string
+	pre  func(n int) string // a prefix of exactly n bytes (n >= 8)
+	post string
+}
+
+var c05Pads = []c05Pad{
+	{"white space", func(n int) string { return strings.Repeat(" ", n) }, ""},
+	{"array", func(n int) string { return "[" + strings.Repeat(" ", (n-1)%2) + strings.Repeat("0,", (n-1)/2) }, "]"},
+	{"string member", func(n int) string { return `{"p":"` + strings.Repeat("p", n-12) + `","x":` }, `,"A":1}`},
+	{"nested", func(n int) string { return strings.Repeat("[", n/2) + strings.Repeat(" ", n%2) }, ""}, // closed below
+}
+
+func c05Padded(p c05Pad, n int, text []byte) []byte {
+	b := append([]byte(p.pre(n)), text...)
+	b = append(b, p.post...)
+	if p.name == "nested" {
+		b = append(b, strings.Repeat("]", n/2)...)
+	}
+	return b
+}
+
+func c05WindowOne(o *Out, b []byte, typed bool) {
+	got := c05Obs(b)
+	want := c05Oracle(b)
+	o.count("x_window_verdict_cases", 1)
+	c05Judge(o, b, got, want)
+	// readers that cut elsewhere: just before, at and just behind the window's edge
+	for _, size := range []int{7, 510, 511, 512} {
+		var v interface{}
+		g := verdict(func() error { return c05StreamPieces(b, &v, size, false) })
+		o.count("x_window_verdict_cases", 1)
+		if g != want[1] {
+			if g == 'A' && c05LeadingSeparator(b, 1) {
+				o.known("StreamLeadingSeparator", fmt.Sprintf("%q", b))
+				continue
+			}
+			o.hist("x_window_mismatch", fmt.Sprintf("pieces of %d: %c vs %c", size, g, want[1]))
+			o.violation("C05", "Decoder.Decode into interface{} disagrees with the RFC 8259 language on a text longer than the window",
+				map[string]string{"pieces": fmt.Sprint(size), "got": string(g), "want": string(want[1]), "len": fmt.Sprint(len(b)), "input": fmt.Sprintf("%q", b)})
+		}
+	}
+	if typed {
+		c05Typed(o, b)
+		c05Plain(o, b, false)
+	}
+}
+
+func c05Window(o *Out) {
+	thorough := o.tier == "thorough"
+	var texts [][]byte
+	for _, d := range corpusDocs {
+		texts = append(texts, []byte(d))
+	}
+	maxLen, every := 2, 9
+	if thorough {
+		maxLen, every = 3, 6
+	}
+	ne := 0
+	enumStrings(alphabet27, maxLen, func(b []byte) {
+		ne++
+		if len(b) == 1 || len(b) > 1 && ne%every == 0 {
+			texts = append(texts, append([]byte{}, b...))
+		}
+	})
+	for _, s := range []string{`"é"`, `"😀"`, `"\ud83d"`, `"\ud83dé"`, `"\uZZZZ"`, `"\u12"`, "\"\xc3\xa9\"", "\"\xe2\x82\xac\"", "\"\xf0\x9f\x98\x80\"", "\"\xe2\x82\"", "\"\xef\xbf\xbd\"", "\"\xef\xbf\"",
+		`-1.5e+10`, `-1.5e+`, `0.0001`, `00.1`, `1.e1`, `true`, `false`, `null`, `trux`, `falsx`, `nulx`, `[true,false,null]`, `{"A":1,"x":[1,{"y":"z"}]}`, `{"A":1 ,"x": "\n" }`,
+		"\"a\x00b\"", "1\x002", "[1\x00]", "\x00", "nu\x00ll", "\"\\\x00\"", `"\"`, `"\\"`, `"\\\"`} {
+		texts = append(texts, []byte(s))
+	}
+	ngen := 8
+	if thorough {
+		ngen = 200
+	}
+	for i := 0; i < ngen; i++ {
+		d := genDoc(o.rng, 2)
+		texts = append(texts, []byte(d))
+		k := 0
+		mutations(d, alphabet27, 13, func(m string) {
+			k++
+			if k%5 == 0 {
+				texts = append(texts, []byte(m))
+			}
+		})
+	}
+	o.count("x_window_texts", int64(len(texts)))
+	// strings with ill-formed UTF-8 are in the language (encoding/json.Valid takes them), and the
+	// stream decoder widens its window by two bytes for each such byte.  With more than 256 of
+	// them in the first window and a text of more than 511 bytes Valid and Decoder.Decode panic
+	// today (see the notes, StreamWindowGrowthOverrun): run with AUDIT_OPEN=1 only.
+	for _, k := range []int{2, 16, 250, 258, 300, 600} { // ill-formed bytes
+		if k > 250 && false {
+			o.count("x_window_held_back_AUDIT_OPEN", 2)
+			continue
+		}
+		for _, unit := range []string{"\xff", "\xe2\x82"} {
+			b := []byte(`"` + strings.Repeat(unit, k/len(unit)) + strings.Repeat("a", 700) + `"`)
+			o.hist("x_window_pad", "ill-formed UTF-8 run")
+			c05WindowOne(o, b, false)
+			c05WindowOne(o, append([]byte(`{"x":`), append(b, `,"A":1}`...)...), true)
+		}
+	}
+	n := 0
+	for ti, t := range texts {
+		for _, edge := range c05Edges {
+			// which byte of the text lies on the last position of the window
+			var offs []int
+			if len(t) <= 4 || thorough && len(t) <= 8 {
+				for j := -1; j <= len(t); j++ {
+					offs = append(offs, j)
+				}
+			} else {
+				offs = []int{0, len(t) - 1, (ti*7 + edge) % len(t)}
+			}
+			for _, j := range offs {
+				start := edge - 1 - j // the text starts here: its byte j is the last byte of the window
+				if start < 16 {
+					continue
+				}
+				p := c05Pads[n%len(c05Pads)]
+				n++
+				b := c05Padded(p, start, t)
+				o.hist("x_window_pad", p.name)
+				o.hist("x_window_edge", fmt.Sprint(edge))
+				c05WindowOne(o, b, n%8 == 0 || p.name == "string member" && n%2 == 0)
+			}
+		}
+	}
+}
+
+// --- destination types of the C02 grammar (buffer mode): a document for the type, with every
+// kind of single-byte damage; whatever the type, a text outside the language must be refused.
+// The recorded findings of the typed destinations are out of the picture by construction:
+// stream mode is not used (SkipUnvalidated, StreamSkipScannerLenient, StreamStructKeyLenient,
+// StreamLeadingSeparator are stream-only), and for a type with a struct in it texts with a
+// backslash or a byte below 0x20 are left out (StructKeyUnvalidated needs one of them
+// inside a key, and a damaged quote can move any part of the text into a key).
+
+func c05HasStruct(t reflect.Type, depth int) bool {
+	if depth > 8 {
+		return true
+	}
+	switch t.Kind() {
+	case reflect.Struct:
+		return true
+	case reflect.Ptr, reflect.Slice, reflect.Array:
+		return c05HasStruct(t.Elem(), depth+1)
+	case reflect.Map:
+		return c05HasStruct(t.Key(), depth+1) || c05HasStruct(t.Elem(), depth+1)
+	}
+	return false
+}
+
+func c05Grammar(o *Out) {
+	r := o.rng
+	ntypes := 450
+	if o.tier == "thorough" {
+		ntypes = 15000
+	}
+	for i := 0; i < ntypes; i++ {
+		var t reflect.Type
+		if i%2 == 0 {
+			t = c02Type(r, 3)
+		} else {
+			t = c02Struct(r, 2)
+		}
+		hasStruct := c05HasStruct(t, 0)
+		o.hist("x_grammar_types", fmt.Sprintf("%s struct-inside=%v", t.Kind(), hasStruct))
+		for j := 0; j < 2; j++ {
+			doc := c02Doc(r, t, 0, false)
+			for try := 0; try < 8 && hasStruct && (strings.IndexByte(doc, '\\') >= 0 || c05HasControl([]byte(doc))); try++ {
+				doc = c02Doc(r, t, 0, false) // one whose damaged forms can be judged
+			}
+			if len(doc) > 400 {
+				continue
+			}
+			k := 0
+			try := func(m string) {
+				b := []byte(m)
+				if stdjson.Valid(b) {
+					return
+				}
+				if hasStruct && (strings.IndexByte(m, '\\') >= 0 || c05HasControl(b)) {
+					o.count("x_grammar_left_to_StructKeyUnvalidated", 1)
+					return
+				}
+				o.count("x_grammar_cases", 1)
+				v := verdict(func() error { return gojson.Unmarshal(b, reflect.New(t).Interface()) })
+				if v == 'P' {
+					o.violation("C05", "panic while decoding", map[string]string{"type": clipN(t.String(), 600), "input": fmt.Sprintf("%q", b)})
+				}
+				if v == 'A' {
+					o.violation("C05", "typed destination accepted a text outside the RFC 8259 language",
+						map[string]string{"type": clipN(t.String(), 600), "mode": "0", "input": fmt.Sprintf("%q", b), "from": doc})
+				}
+			}
+			mutations(doc, alphabet27, 3, func(m string) {
+				k++
+				try(m)
+			})
+			// two damages at once, and a cut
+			for c := 0; c < 8 && len(doc) > 2; c++ {
+				m := []byte(doc)
+				m[r.Intn(len(m))] = alphabet27[r.Intn(len(alphabet27))]
+				m[r.Intn(len(m))] = alphabet27[r.Intn(len(alphabet27))]
+				try(string(m))
+				try(doc[:r.Intn(len(doc))])
+			}
+		}
+	}
+}
+
+// --- damage by whole tokens.  A single byte cannot turn the key "a" into null, a number or
+// an array, nor drop a colon together with its value: {null:1} (accepted by one of the three
+// struct key matchers until fd8caea) is eight single-byte steps from the nearest valid text.
+// Every token of a generated text is deleted, doubled, swapped with its neighbour and
+// replaced by every kind of token; and every kind of token is put where a key must stand.
+
+func c05Tokens(doc string) []string {
+	var toks []string
+	for i := 0; i < len(doc); {
+		c := doc[i]
+		switch {
+		case c == ' ' || c == '\t' || c == '\n' || c == '\r':
+			j := i
+			for j < len(doc) && (doc[j] == ' ' || doc[j] == '\t' || doc[j] == '\n' || doc[j] == '\r') {
+				j++
+			}
+			toks = append(toks, doc[i:j])
+			i = j
+		case c == '"':
+			j := i + 1
+			for j < len(doc) && doc[j] != '"' {
+				if doc[j] == '\\' {
+					j++
+				}
+				j++
+			}
+			if j < len(doc) {
+				j++
+			}
+			if j > len(doc) {
+				j = len(doc)
+			}
+			toks = append(toks, doc[i:j])
+			i = j
+		case c == '{' || c == '}' || c == '[' || c == ']' || c == ',' || c == ':':
+			toks = append(toks, doc[i:i+1])
+			i++
+		default:
+			j := i
+			for j < len(doc) && strings.IndexByte("{}[],:\" \t\n\r", doc[j]) < 0 {
+				j++
+			}
+			toks = append(toks, doc[i:j])
+			i = j
+		}
+	}
+	return toks
+}
+
+var c05TokenKinds = []string{"null", "true", "false", "0", "-1.5e2", `"s"`, `""`, "[", "]", "{", "}", ",", ":", "[]", "{}", `{"A":1}`, "[1]", " ", "", "nul", "-", `"`, "\x00"}
+
+func c05TokenDamage(o *Out) {
+	r := o.rng
+	ndocs := 40
+	if o.tier == "thorough" {
+		ndocs = 400
+	}
+	n := 0
+	run := func(m string) {
+		n++
+		o.count("x_token_texts", 1)
+		c05Text(o, []byte(m), n%3 == 0)
+	}
+	for i := 0; i < ndocs; i++ {
+		d := genDoc(r, 3)
+		if i%2 == 0 {
+			d = strings.Replace([]string{`{"x":%s,"A":1}`, `{"A":1,"k":{"x":%s}}`, `[%s,{"A":2,"abc":[%s]}]`}[i/2%3], "%s", d, -1)
+		}
+		toks := c05Tokens(d)
+		if len(toks) > 60 {
+			continue
+		}
+		join := func(t []string) string { return strings.Join(t, "") }
+		for k := range toks {
+			if strings.TrimSpace(toks[k]) == "" {
+				continue
+			}
+			cp := func() []string { return append([]string{}, toks...) }
+			t := cp()
+			run(join(append(t[:k], t[k+1:]...))) // deleted
+			t = cp()
+			t[k] = t[k] + t[k]
+			run(join(t)) // doubled
+			if k+1 < len(toks) {
+				t = cp()
+				t[k], t[k+1] = t[k+1], t[k]
+				run(join(t)) // swapped
+			}
+			for _, rep := range c05TokenKinds {
+				if (k*7+len(rep)+i)%3 != 0 && o.tier != "thorough" {
+					continue
+				}
+				t = cp()
+				t[k] = rep
+				run(join(t))
+			}
+		}
+	}
+	// every kind of token where a key must stand
+	ctxs := []string{`{%s:1}`, `{%s}`, `{"A":1,%s:2}`, `{%s:1,"A":2}`, `[{%s:[]}]`, `{"x":{%s:1},"A":1}`, `{"k":{%s:{}}}`, `{ %s : 1 }`, `{"A":1,%s}`, `{%s:1,%s:2}`}
+	for _, c := range ctxs {
+		for _, tk := range append(append([]string{}, c05TokenKinds...), "1", "tru", "n", "a", "'a'", `"A"`, `"a" "b"`, `"\u0041"`, `"A":1,"A"`) {
+			m := strings.Replace(c, "%s", tk, -1)
+			o.count("x_token_key_position_texts", 1)
+			c05Text(o, []byte(m), true)
+		}
+	}
+}
+
+func c05Extra(o *Out) {
+	for _, s := range []struct {
+		name string
+		run  func(*Out)
+	}{
+		{"token (damage by whole tokens; every kind of token in key position)", c05TokenDamage},
+		{"window (every byte of a short text on the edge of the stream window)", c05Window},
+		{"grammar (C02 type grammar x damaged documents for the type, buffer mode)", c05Grammar},
+	} {
+		t0 := time.Now()
+		v0 := o.Stats["harness_violations"]
+		s.run(o)
+		o.Notes = append(o.Notes, fmt.Sprintf("audit stratum %s: %.1fs, %d violations", s.name, time.Since(t0).Seconds(), o.Stats["harness_violations"]-v0))
 	}
 }
